@@ -562,6 +562,12 @@ func genNode(t *rapid.T, depth int, noPtr bool) *Node {
 			n.C = append(n.C, genNode(t, depth+1, noPtr))
 			n.Tags = append(n.Tags, rapid.IntRange(0, len(tagTemplates)-1).Draw(t, "tag"))
 		}
+		if rapid.IntRange(0, 5).Draw(t, "remainfield") == 0 {
+			// the catch-all of a configuration struct: a map[string]any field tagged ",remain" whose values are
+			// whatever the program put there - secrets included, directly or inside containers
+			n.C = append(n.C, wrap("map", rapid.IntRange(1, 3).Draw(t, "remain_n"), wrap("iface", 0, genNode(t, depth+1, noPtr))))
+			n.Tags = append(n.Tags, 12)
+		}
 		return n
 	default:
 		return realNode(rapid.SampledFrom(realDefs).Draw(t, "real").name, rapid.IntRange(0, 3).Draw(t, "hdrs"))
